@@ -809,3 +809,30 @@ func SendOrDone[T any](ch chan<- T, v T, done <-chan struct{}) bool {
 	post("select")
 	return sent
 }
+
+// RecvTimeout waits for a value on ch, for done to be closed, or for d of simulated time (d <= 0:
+// no timeout). status: 0 = received, 1 = done, 2 = timeout.
+func RecvTimeout[T any](ch <-chan T, done <-chan struct{}, d time.Duration) (v T, status int) {
+	pre("select", nil)
+	if v, _, got := TryRecv(ch); got {
+		return v, 0
+	}
+	if _, _, got := TryRecv(done); got {
+		return v, 1
+	}
+	var tc <-chan time.Time
+	if d > 0 {
+		t := time.NewTimer(d)
+		defer t.Stop()
+		tc = t.C
+	}
+	select {
+	case v = <-ch:
+	case <-done:
+		status = 1
+	case <-tc:
+		status = 2
+	}
+	post("select")
+	return v, status
+}
